@@ -574,7 +574,9 @@ def get_simulations(data: dict, verbose: bool = True) -> List[BaseSimulation]:
                                                 **method_params))
 
     if method == 'splitting':
-        for code, error_model, decoder_dict in instances:
+        for code, error_model, decoder_dict in itertools.product(
+            codes, error_models, decoder_range
+        ):
             decoders = [_parse_decoder_dict(decoder_dict, code, error_model, p)
                         for p in error_rates]
 
